@@ -1,5 +1,5 @@
 /-
-  C11 — ISOBMFF box containment: no read escapes its box; CR3 payloads delivered whole.
+  C11 — ISOBMFF box containment: no read escapes its box; CR3 payloads and the HEIF Exif item (mdat) delivered whole.
 
   The model (Imeta/Model/Bmff.lean) is tied to isobmff/*.go by the correspondence on generated box trees
   (harness/cmd/vh/c11.go); the theorems below hold for every byte stream, every nesting and every size field.
@@ -378,6 +378,186 @@ theorem C11_prvw_delivery (s : St) (b : Box) (t : List Box) (R N : Nat)
   · simp only [hev, hr1, hev1, List.drop_drop]
   · simp only [hpos, hp1]
   · simp only [hrest, hr1, List.drop_drop]
+
+/-- inside the Exif item box (L bytes left, well nested, in the stream; the item header of K+4 bytes and a Tiff header
+with at least one directory fit): the item header is skipped, the Tiff header read, the draining Exif callback obtains
+exactly the L-K-4-8 bytes after the Tiff header, and the box is used up -/
+theorem mdatExifBody_delivers (s : St) (inner : Box) (t : List Box) (K L : Nat)
+    (hc : s.chain = inner :: t) (hn : inner.remain = L) (hnest : ∀ o ∈ t, inner.remain ≤ o.remain)
+    (hK : K + 4 + 16 ≤ L) (hlen : L ≤ s.rest.length) (hcb : s.cfg.cb = .drain) (hex : s.cfg.hasExif = true) :
+    ∃ s', mdatExifBody K s = (.ok (Except.ok ()), s') ∧
+      s'.events = { kind := "exif",
+                    nums := [1, (Tiff.binaryOrder ((s.rest.drop (K + 4)).take 16)).code,
+                             (Tiff.binaryOrder ((s.rest.drop (K + 4)).take 16)).uint ((((s.rest.drop (K + 4)).take 16).drop 4).take 4),
+                             (((L - (K + 4) : Nat) : Int) % 2 ^ 32).toNat, 0, 15],
+                    data := (s.rest.drop (K + 4 + 8)).take (L - (K + 4) - 8) } :: s.events ∧
+      s'.pos = s.pos + L ∧ s'.rest = s.rest.drop L ∧ s'.chain = subAll s.chain L ∧ s'.exifOff = s.exifOff ∧ s'.cfg = s.cfg := by
+  have hall : ∀ k : Nat, k ≤ L → ∀ o ∈ s.chain, (k : Int) ≤ o.remain := by
+    intro k hk o ho
+    rw [hc] at ho
+    rcases List.mem_cons.mp ho with h | h
+    · subst h; omega
+    · have := hnest o h; omega
+  unfold mdatExifBody
+  rw [show ((K : Int) + 4) = ((K + 4 : Nat) : Int) by push_cast; rfl]
+  rw [bind_ok (attempt_ok (discard_ok s (K + 4) (hall (K + 4) (by omega)) (by omega)))]
+  simp only []
+  generalize hs1 : ({ s with chain := subAll s.chain ((K + 4 : Nat) : Int), rest := s.rest.drop (K + 4), pos := s.pos + (K + 4) } : St) = s1
+  have hc1 : s1.chain = { inner with remain := inner.remain - ((K + 4 : Nat) : Int) } :: subAll t ((K + 4 : Nat) : Int) := by
+    subst hs1; simp only [hc, subAll_cons]
+  have hr1 : s1.rest = s.rest.drop (K + 4) := by subst hs1; rfl
+  have hp1 : s1.pos = s.pos + (K + 4) := by subst hs1; rfl
+  have hcfg1 : s1.cfg = s.cfg := by subst hs1; rfl
+  have hev1 : s1.events = s.events := by subst hs1; rfl
+  have hx1 : s1.exifOff = s.exifOff := by subst hs1; rfl
+  have hnest1 : ∀ o ∈ subAll t ((K + 4 : Nat) : Int), ({ inner with remain := inner.remain - ((K + 4 : Nat) : Int) } : Box).remain ≤ o.remain := by
+    intro o ho
+    simp only [subAll, List.mem_map] at ho
+    obtain ⟨o', ho', rfl⟩ := ho
+    have := hnest o' ho'
+    simp only; omega
+  have hl1 : s1.rest.length = s.rest.length - (K + 4) := by rw [hr1]; simp
+  have hhdr := readExifHeader_ok 1 s1 _ _ (L - (K + 4)) hc1 (by simp only; omega) (by omega) hnest1 (by omega)
+  rw [bind_ok (attempt_ok hhdr)]
+  simp only []
+  generalize hs2 : ({ s1 with chain := subAll s1.chain 8, rest := s1.rest.drop 8, pos := s1.pos + 8 } : St) = s2
+  have hc2 : s2.chain = { inner with remain := inner.remain - ((K + 4 : Nat) : Int) - 8 } :: subAll (subAll t ((K + 4 : Nat) : Int)) 8 := by
+    subst hs2; simp only [hc1, subAll_cons]
+  have hcfg2 : s2.cfg = s.cfg := by subst hs2; exact hcfg1
+  rw [bind_ok (show get s2 = (.ok s2, s2) from rfl)]
+  simp only [hcfg2, hex, if_true]
+  have hcbk := callback_drain "exif" [1, (Tiff.binaryOrder (s1.rest.take 16)).code, (Tiff.binaryOrder (s1.rest.take 16)).uint (((s1.rest.take 16).drop 4).take 4),
+      (((L - (K + 4) : Nat) : Int) % 2 ^ 32).toNat, 0, 15] s2 _ _ (L - (K + 4) - 8) hc2 (by simp only; omega)
+      (by intro o ho
+          simp only [subAll, List.mem_map] at ho
+          obtain ⟨o1, ⟨o', ho', rfl⟩, rfl⟩ := ho
+          have := hnest o' ho'
+          simp only; omega)
+      (by subst hs2; simp only [List.length_drop, hl1]; omega) (by rw [hcfg2]; exact hcb)
+  obtain ⟨s3, hs3, hcbk⟩ : ∃ s3, _ = s3 ∧ callback "exif" _ s2 = (.ok (), s3) := ⟨_, rfl, hcbk⟩
+  rw [bind_ok (attempt_ok hcbk)]
+  refine ⟨s3, rfl, ?_, ?_, ?_, ?_, ?_, ?_⟩
+  · subst hs3; subst hs2; simp only [hr1, hev1, List.drop_drop]
+  · subst hs3; subst hs2; simp only [hp1]; omega
+  · subst hs3; subst hs2; simp only [hr1, List.drop_drop]; congr 1; omega
+  · subst hs3; subst hs2; subst hs1
+    simp only [subAll, List.map_map]
+    apply List.map_congr_left
+    intro o _
+    simp only [Function.comp]
+    congr 1
+    omega
+  · subst hs3; subst hs2; exact hx1
+  · subst hs3; exact hcfg2
+
+/-- **HEIF: the Exif item inside mdat is delivered exactly.**  In the mdat box (n bytes left, well nested, in the stream),
+with the item location recorded from iloc (`exifOff`, `exifLen`; D = bytes between the reader and 16 bytes before the
+item, L = the item's length, both inside the box), K = what the 16 bytes in front of the item say must be skipped
+(`exifMarkerSkip`), and room for the item header and a Tiff header with one directory: the Exif callback is invoked
+exactly once, with first directory IFD0, the byte order and first-IFD offset of the item's own Tiff header, the length
+L-K-4, and a reader that yields exactly the item's bytes after that header; afterwards mdat is consumed exactly. -/
+theorem C11_mdat_exif_delivery (s : St) (b : Box) (t : List Box) (n D L : Nat)
+    (hc : s.chain = b :: t) (hn : b.remain = n) (hnest : ∀ o ∈ t, b.remain ≤ o.remain) (hlen : n ≤ s.rest.length)
+    (hoff : s.exifOff ≠ 0) (hD : toI64 s.exifOff - b.offset - 16 = (D : Int)) (hL : toI64 s.exifLen = (L : Int))
+    (hfit : D + L ≤ n) (hK : exifMarkerSkip ((s.rest.drop D).take 16) + 4 + 16 ≤ L)
+    (hcb : s.cfg.cb = .drain) (hex : s.cfg.hasExif = true) :
+    ∃ s', readMdat s = (.ok (), s') ∧
+      s'.events = { kind := "exif",
+                    nums := [1, (Tiff.binaryOrder ((s.rest.drop (D + (exifMarkerSkip ((s.rest.drop D).take 16) + 4))).take 16)).code,
+                             (Tiff.binaryOrder ((s.rest.drop (D + (exifMarkerSkip ((s.rest.drop D).take 16) + 4))).take 16)).uint
+                               ((((s.rest.drop (D + (exifMarkerSkip ((s.rest.drop D).take 16) + 4))).take 16).drop 4).take 4),
+                             (((L - (exifMarkerSkip ((s.rest.drop D).take 16) + 4) : Nat) : Int) % 2 ^ 32).toNat, 0, 15],
+                    data := (s.rest.drop (D + (exifMarkerSkip ((s.rest.drop D).take 16) + 4 + 8))).take (L - (exifMarkerSkip ((s.rest.drop D).take 16) + 4) - 8) } :: s.events ∧
+      s'.pos = s.pos + n ∧ s'.rest = s.rest.drop n := by
+  have hall : ∀ k : Nat, k ≤ n → ∀ o ∈ s.chain, (k : Int) ≤ o.remain := by
+    intro k hk o ho
+    rw [hc] at ho
+    rcases List.mem_cons.mp ho with h | h
+    · subst h; omega
+    · have := hnest o h; omega
+  unfold readMdat
+  rw [bind_ok (show get s = (.ok s, s) from rfl)]
+  have hne : (s.exifOff == 0) = false := by simp [hoff]
+  simp only [hne, Bool.false_eq_true, if_false]
+  rw [bind_ok (head_ok s b t hc), hD]
+  rw [bind_ok (discard_ok s D (hall D (by omega)) (by omega))]
+  generalize hs1 : ({ s with chain := subAll s.chain ((D : Nat) : Int), rest := s.rest.drop D, pos := s.pos + D } : St) = s1
+  have hc1 : s1.chain = { b with remain := b.remain - ((D : Nat) : Int) } :: subAll t ((D : Nat) : Int) := by subst hs1; simp only [hc, subAll_cons]
+  have hr1 : s1.rest = s.rest.drop D := by subst hs1; rfl
+  have hp1 : s1.pos = s.pos + D := by subst hs1; rfl
+  have hcfg1 : s1.cfg = s.cfg := by subst hs1; rfl
+  have hev1 : s1.events = s.events := by subst hs1; rfl
+  have hall1 : ∀ k : Nat, k + D ≤ n → ∀ o ∈ s1.chain, (k : Int) ≤ o.remain := by
+    intro k hk o ho
+    rw [hc1] at ho
+    rcases List.mem_cons.mp ho with h | h
+    · subst h; simp only; omega
+    · simp only [subAll, List.mem_map] at h
+      obtain ⟨o', ho', rfl⟩ := h
+      have := hnest o' ho'
+      simp only; omega
+  have hl1 : s1.rest.length = s.rest.length - D := by rw [hr1]; simp
+  rw [show (16 : Int) = ((16 : Nat) : Int) from rfl, bind_ok (peek_ok s1 16 (hall1 16 (by omega)) (by omega) (by omega))]
+  rw [bind_ok (head_ok s1 _ _ hc1), hL, hr1]
+  generalize hKdef : exifMarkerSkip ((s.rest.drop D).take 16) = K at hK ⊢
+  -- inside the Exif item box
+  obtain ⟨s4, hbody, hev, hpos, hrest, hchain, _, _⟩ := mdatExifBody_delivers
+    { s1 with chain := { size := (L : Int), remain := (L : Int), offset := _, flags := 0, typ := t_Exif, lim := (s1.pos : Int) + max (L : Int) 0 } :: s1.chain }
+    _ s1.chain K L rfl rfl (by intro o ho; exact hall1 L (by omega) o ho) hK (by simp only [hl1]; omega) (by simp only [hcfg1]; exact hcb) (by simp only [hcfg1]; exact hex)
+  rw [bind_ok (openBox_ok _ _ _ _ _ s1 s4 _ hbody)]
+  simp only []
+  -- back in mdat: close discards what is left of it
+  have hc5 : ({ s4 with chain := s4.chain.tail } : St).chain = { b with remain := b.remain - ((D : Nat) : Int) - (L : Int) } :: subAll (subAll t ((D : Nat) : Int)) (L : Int) := by
+    simp only [hchain, hc1, subAll_cons, List.tail_cons]
+  have hcl : ∃ s5, close { s4 with chain := s4.chain.tail } = (.ok (), s5) ∧ s5.events = s4.events ∧
+      s5.pos = s4.pos + (n - D - L) ∧ s5.rest = s4.rest.drop (n - D - L) := by
+    by_cases h0 : n - D - L = 0
+    · refine ⟨_, close_noop _ _ _ hc5 (by simp only; omega), rfl, ?_, ?_⟩
+      · rw [h0]; rfl
+      · rw [h0]; rfl
+    · have hd := discard_ok ({ s4 with chain := s4.chain.tail } : St) (n - D - L)
+          (by intro o ho
+              rw [hc5] at ho
+              rcases List.mem_cons.mp ho with h | h
+              · subst h; simp only; omega
+              · simp only [subAll, List.mem_map] at h
+                obtain ⟨o1, ⟨o', ho', rfl⟩, rfl⟩ := h
+                have := hnest o' ho'
+                simp only; omega)
+          (by simp only [hrest, List.length_drop, hl1]; omega)
+      obtain ⟨s5, hs5, hd⟩ : ∃ s5, _ = s5 ∧ Bmff.discard ((n - D - L : Nat) : Int) ({ s4 with chain := s4.chain.tail } : St) = (.ok (), s5) := ⟨_, rfl, hd⟩
+      refine ⟨s5, ?_, ?_, ?_, ?_⟩
+      · unfold Bmff.close
+        rw [bind_ok (head_ok _ _ _ hc5)]
+        have hz : ((b.remain - ((D : Nat) : Int) - (L : Int)) == 0) = false := by
+          simp only [beq_eq_false_iff_ne, ne_eq]; omega
+        simp only [hz, Bool.false_eq_true, if_false]
+        rw [show b.remain - ((D : Nat) : Int) - (L : Int) = ((n - D - L : Nat) : Int) by omega]
+        exact hd
+      · subst hs5; rfl
+      · subst hs5; rfl
+      · subst hs5; rfl
+  obtain ⟨s5, hcl5, hev5, hpos5, hrest5⟩ := hcl
+  rw [hcl5]
+  refine ⟨_, rfl, ?_, ?_, ?_⟩
+  · simp only [hev5, hev, hr1, hev1, List.drop_drop]
+  · simp only [hpos5, hpos, hp1]; omega
+  · simp only [hrest5, hrest, hr1, List.drop_drop]; congr 1; omega
+
+/-- non-vacuity: a 40-byte mdat payload whose Exif item (28 bytes: 4-byte item header, II Tiff header, one directory
+slot) starts 16 bytes further on; the theorem's hypotheses hold and the callback gets the 16 bytes after the
+Tiff header -/
+def mdatSample : St :=
+  { rest := [9,9,9,9,9,9,9,9, 9,9,9,9,9,9,9,9, 0,0,0,0, 73,73,42,0,8,0,0,0, 1,2,3,4,5,6,7,8,9,10,11,12,13,14,15,16, 7,7,7,7,7,7,7,7,7,7,7,7],
+    pos := 8, chain := [{ size := 64, remain := 56, offset := 0, flags := 0, typ := t_mdat, lim := 64 }],
+    exifId := 1, xmlId := 0, exifOff := 32, exifLen := 28, events := [], cfg := {} }
+example : ∃ s', readMdat mdatSample = (.ok (), s') ∧
+    s'.events = [{ kind := "exif", nums := [1, 1, 8, 24, 0, 15], data := [1,2,3,4,5,6,7,8,9,10,11,12,13,14,15,16] }] := by
+  obtain ⟨s', h, hev, _, _⟩ := C11_mdat_exif_delivery mdatSample _ [] 56 16 28 rfl rfl (by intro o ho; cases ho) (by decide)
+    (by decide) (by decide) (by decide) (by decide) (by decide) rfl rfl
+  refine ⟨s', h, ?_⟩
+  rw [hev]
+  rfl
 
 /-! ### any callback: whatever a callback does with the reader it is handed, it stays inside every open box -/
 
